@@ -18,6 +18,12 @@ CHECKS = {
         text="TLC checks the identity invariants (dense increasing pids, pid[k] >= k, never reused, values follow the particle, arrays equally long, compactify removes exactly the dead in order) over every history of append/kill/compactify/update within the bound; every behaviour TLC generates to the GEN depth plus simulated deep ones is stepped through the real ladim.state.State with the projection compared after each operation, and long random histories recorded from the real State are validated against the same operators.",
         note="Trusted: the mapping of abstract operations to State calls (as LADiM's own release/IBM/output modules use them), TLC.",
         design="6 C05"),
+    "C04": dict(
+        level="model_checking",
+        technique="TLA+ spec Release (declarative schedule in simulation time + operational algorithm shaped like release.py) model-checked with TLC (MC_Release); trace validation of the real ParticleReleaser stepped through whole windows (ReleaseTrace)",
+        text="TLC checks operational schedule = declarative schedule (rows, order, multiplicity, window [start, stop), refusal iff empty) for every table/window/direction/mode/frequency in the bound; thousands of generated release files (column orders, header or names, separators, time spellings, mult 0-3, extra int/float columns, forward/reversed, discrete/continuous) are run through the real TimeKeeper + State + ParticleReleaser and every step's new particles (count, pids, payload, release_time) are validated by TLC against the declarative schedule.",
+        note="Quantifier of C04: table sorted in simulation order, times on the model grid, continuous file times on the tick grid. lon/lat conversion is decided under C16. Trusted: numpy datetime parsing in the harness, TLC.",
+        design="6 C04"),
 }
 
 NOT_YET = {}
